@@ -43,6 +43,10 @@ type Case struct {
 	Legacy  bool     `json:"legacy_names"`
 	Origin  string   `json:"origin,omitempty"`
 	Ops     []string `json:"ops,omitempty"`
+	// binary layer only: extra command line arguments (global ones first, "lint" marks the boundary) and
+	// extra configuration text
+	Args []string `json:"args,omitempty"`
+	Cfg  string   `json:"cfg,omitempty"`
 }
 
 func (c Case) bytes() []byte {
@@ -361,8 +365,48 @@ func TestPropBinary(t *testing.T) {
 		if c.Thanos || c.Legacy {
 			c.Thanos, c.Legacy = false, false
 		}
+		// every documented switch of `pint lint` that changes what is reported or how
+		global := []string{}
+		if rapid.IntRange(0, 3).Draw(rt, "showdup") == 0 {
+			global = append(global, "--show-duplicates")
+		}
+		if rapid.IntRange(0, 3).Draw(rt, "workers") == 0 {
+			global = append(global, "--workers", rapid.SampledFrom([]string{"1", "2", "32"}).Draw(rt, "workersN"))
+		}
+		switch rapid.IntRange(0, 5).Draw(rt, "onoff") {
+		case 0:
+			global = append(global, "--disabled", rapid.SampledFrom([]string{"promql/syntax", "alerts/template", "rule/duplicate", "promql/fragile"}).Draw(rt, "dis"))
+		case 1:
+			global = append(global, "--enabled", rapid.SampledFrom([]string{"promql/syntax", "alerts/template", "alerts/comparison", "rule/dependency"}).Draw(rt, "en"))
+		}
+		lint := []string{"lint"}
+		if rapid.IntRange(0, 2).Draw(rt, "owner") == 0 {
+			lint = append(lint, "--require-owner")
+			if rapid.Bool().Draw(rt, "allowed") {
+				c.Cfg = "owners {\n  allowed = [\"^team-.+$\"]\n}\n"
+			}
+			switch rapid.IntRange(0, 3).Draw(rt, "ownerc") {
+			case 0:
+				c.set("# pint file/owner team-a\n" + string(c.bytes()))
+			case 1:
+				c.set("# pint file/owner bob\n" + string(c.bytes()))
+			}
+		}
+		if rapid.IntRange(0, 3).Draw(rt, "teamcity") == 0 {
+			lint = append(lint, "--teamcity")
+		}
+		lint = append(lint, "--min-severity", rapid.SampledFrom([]string{"info", "info", "warning", "bug", "fatal"}).Draw(rt, "minsev"))
+		if rapid.IntRange(0, 2).Draw(rt, "failon") == 0 {
+			lint = append(lint, "--fail-on", rapid.SampledFrom([]string{"info", "warning", "bug", "fatal"}).Draw(rt, "failonv"))
+		}
+		c.Args = append(global, lint...)
 		err := runBinary(bin, c)
-		rec.Case("binary/"+c.Origin, true, string(c.bytes()), func() any { return c })
+		rec.Case("binary/"+c.Origin, true, string(c.bytes())+strings.Join(c.Args, " "), func() any { return c })
+		for _, a := range c.Args {
+			if strings.HasPrefix(a, "--") {
+				rec.Count("binary_runs_with:"+a, 1)
+			}
+		}
 		if err != nil {
 			rec.Fail(c, err)
 			rt.Fatalf("%v\n--- src ---\n%s", err, string(c.bytes()))
@@ -383,8 +427,15 @@ func runBinary(bin string, c Case) error {
 	if c.Relaxed {
 		cfg = "parser {\n  relaxed = [\".*\"]\n}\n"
 	}
-	_ = os.WriteFile(filepath.Join(dir, ".pint.hcl"), []byte(cfg), 0o644)
-	cmd := exec.Command(bin, "--no-color", "--offline", "-c", ".pint.hcl", "lint", "--min-severity", "info", "--json", "out.json", "--checkstyle", "out.xml", "rules.yml")
+	_ = os.WriteFile(filepath.Join(dir, ".pint.hcl"), []byte(cfg+c.Cfg), 0o644)
+	args := []string{"--no-color", "--offline", "-c", ".pint.hcl"}
+	if len(c.Args) == 0 {
+		args = append(args, "lint", "--min-severity", "info")
+	} else {
+		args = append(args, c.Args...)
+	}
+	args = append(args, "--json", "out.json", "--checkstyle", "out.xml", "rules.yml")
+	cmd := exec.Command(bin, args...)
 	cmd.Dir = dir
 	var stderr bytes.Buffer
 	cmd.Stderr = &stderr
@@ -451,6 +502,12 @@ func TestReplay(t *testing.T) {
 	var c Case
 	if err := vstat.LoadReplay(p, &c); err != nil {
 		t.Fatal(err)
+	}
+	if bin := os.Getenv("VERIF_PINT_BIN"); bin != "" && len(c.Args) > 0 {
+		if err := runBinary(bin, c); err != nil {
+			t.Fatalf("%v", err)
+		}
+		return
 	}
 	if _, err := check(c); err != nil {
 		t.Fatalf("%v", err)
